@@ -60,7 +60,7 @@ def lease_stale(c):
     c.run_vh(["drive", "lease", "-seed", c.seed, "-out", out, "-x", "mode=stale", "-x", "tier=" + c.tier], timeout=900)
     c.extra["lease_stale_runs"] = json.load(open(out + ".stats"))
     before = len(c.violations)
-    c05.validate(c, out, "stale")
+    c05.validate(c, out, "stale", gone=True)
     for v in c.violations[before:]:
         v["sig"] = "lock: a renewal of a finished tenure left something behind (re-acquisition through the same Locker failed, the lock " \
-                   "is not free in the end, or the next holder's record was disturbed) [real-time]"
+                   "is not free in the end, the record outlived Unlock, or the next holder's record was disturbed) [real-time]"
